@@ -22,6 +22,8 @@ theorem toZ_pow2k (a : Nat) (k : Nat) : toZ (FIR.pow2k a k) = toZ a ^ (2 ^ k) :=
 theorem toZ_m121666 (a : Nat) : toZ (FIR.m121666 a) = toZ a * 121666 := by
   unfold FIR.m121666; rw [toZ_mul]; congr 1
 
+theorem toZ_121666 : toZ 121666 = 121666 := by unfold Voi.Props.C07.toZ; exact Nat.cast_ofNat
+
 theorem pow2k_lt (a k : Nat) : FIR.pow2k a k < p := by
   induction k generalizing a with
   | zero => exact Nat.mod_lt _ p_pos
@@ -86,10 +88,10 @@ theorem MontgomeryStep_eq (PU PW QU QW a : Nat) :
   simp only [MontgomeryStep_sh, Voi.Model.Montgomery.diffAddAndDouble]
   apply list4_ext <;>
     first
-    | rfl
+    | with_reducible rfl
     | (apply toZ_inj (by first | exact mul_lt _ _ | exact sq_lt _ | exact add_lt _ _ | exact sub_lt _ _)
           (by first | exact mul_lt _ _ | exact sq_lt _ | exact add_lt _ _ | exact sub_lt _ _)
-       simp only [toZ_mul, toZ_add, toZ_sub, toZ_sq, toZ_m121666, Voi.Model.Montgomery.mul121666]
+       simp only [toZ_mul, toZ_add, toZ_sub, toZ_sq, toZ_m121666, Voi.Model.Montgomery.mul121666, toZ_121666]
        try ring)
 
 end Voi.Props.FL
